@@ -45,6 +45,17 @@ var WideFamilies = []WideFamily{
 	{"hint-records", "query", func(n int) string { return "@{" + joinN("a=1", n, ", ") + "} SELECT 1" }},
 }
 
+// WideBrokenFamilies are wide lists whose every element has a syntax error (many Bad nodes / many errors in one input).
+var WideBrokenFamilies = []WideFamily{
+	{"broken-statements", "statements", func(n int) string { return joinN("SELECT 1 1", n, ";\n") }},
+	{"broken-select-items", "query", func(n int) string { return "SELECT " + joinN("(1 +)", n, ", ") }},
+	{"broken-array-elements", "expr", func(n int) string { return "[" + joinN("(a b)", n, ", ") + "]" }},
+	{"broken-ddls", "ddls", func(n int) string { return joinN("DROP TABLE", n, ";") }},
+	{"broken-dmls", "dmls", func(n int) string { return joinN("DELETE FROM", n, "; ") }},
+	{"broken-struct-fields", "type", func(n int) string { return "STRUCT<" + joinN("a ARRAY<1>", n, ", ") + ">" }},
+	{"broken-call-args", "expr", func(n int) string { return "f(" + joinN("(1 2)", n, ", ") + ")" }},
+}
+
 // LongLiterals returns inputs with very long tokens (literals, identifiers, comments).
 func LongLiterals() []struct{ Entry, Text string } {
 	var out []struct{ Entry, Text string }
